@@ -16,4 +16,4 @@ def run(ctx):
         "model and is shown unreachable for requests whose library calls return); that the library calls themselves return "
         "(TOML decoder, model interpreter/initialisation, encoding/csv + caster, encoding/json, json.MarshalIndent, regexp) is "
         "sampled by this stream, not proved",
-        "the model is written from the engine sources with the fix series proposed_fixes/SERIES-C14C15.txt applied"]
+        "the model is written from the engine sources as committed in /repo (fix series proposed_fixes/SERIES-C14C15.txt + CSV cell-text fix b0400cb)"]
